@@ -90,7 +90,11 @@ inductive Expr where
   | call (fn : List Value → Res) (nullChecks : List Nat) (args : List Expr)
   | and (args : List Expr)
   | or (args : List Expr)
+  | assert (expectedTypeIDs : List Nat) (e : Expr)      -- `execution.TypeAssertion`
   deriving Inhabited
+
+/-- the payload the model gives the error of a failed `TypeAssertion` ("invalid type: …, expected: …") -/
+def invalidTypeTag : List UInt8 := "invalid-type".toUTF8.toList
 
 /-- `Variable.Evaluate`: walk `level` parents (nil dereference ⇒ panic), then `Values[index]` -/
 def lookupVar : List (List Value) → Nat → Nat → Res
@@ -163,6 +167,12 @@ def eval (env : List (List Value)) : Expr → Res
     | .error r => r
   | .and args => evalAnd env 0 false args
   | .or args => evalOr env 0 false args
+  | .assert ids e =>
+    -- `TypeAssertion.Evaluate`: an error of the operand is returned unwrapped; the value passes iff its TypeID is expected
+    match eval env e with
+    | .val v => if ids.contains v.rank then .val v else .err { path := [], tag := invalidTypeTag }
+    | .err err => .err err
+    | .panic => .panic
 /-- `for i := range c.args { value, err := c.args[i].Evaluate(ctx); if err != nil { return … } argValues[i] = value }` -/
 def evalArgs (env : List (List Value)) (i : Nat) : List Expr → Except Res (List Value)
   | [] => .ok []
@@ -216,10 +226,16 @@ inductive PExpr where
   | call (ty : Ty) (d : Desc) (args : List PExpr)
   | and (ty : Ty) (args : List PExpr)
   | or (ty : Ty) (args : List PExpr)
+  | assert (ty : Ty) (target : Ty) (e : PExpr)         -- `physical.TypeAssertion{Expression, TargetType}`
 
 /-- `expr.Type` -/
 def PExpr.ty : PExpr → Ty
-  | .var t _ => t | .const t _ => t | .call t _ _ => t | .and t _ => t | .or t _ => t
+  | .var t _ => t | .const t _ => t | .call t _ _ => t | .and t _ => t | .or t _ => t | .assert t _ _ => t
+
+/-- `expectedTypeIDs` of the TypeAssertion case of `Materialize`: the target's TypeID, or its alternatives' TypeIDs -/
+def expectedIds : Ty → List Nat
+  | .union alts => alts.map Ty.id
+  | t => [t.id]
 
 /-- `for i, field := range varCtx.Fields { if field.Name == name { index = i; break ctxLoop } }` -/
 def findField (name : Nat) (i : Nat) : List Nat → Option Nat
@@ -251,6 +267,7 @@ def materialize (schema : List (List Nat)) : PExpr → Expr
   | .call _ d args => .call d.fn (nullCheckIndices d args) (materializeList schema args)
   | .and _ args => .and (materializeList schema args)
   | .or _ args => .or (materializeList schema args)
+  | .assert _ target e => .assert (expectedIds target) (materialize schema e)
 def materializeList (schema : List (List Nat)) : List PExpr → List Expr
   | [] => []
   | a :: rest => materialize schema a :: materializeList schema rest
